@@ -146,29 +146,66 @@ func C02(tier string) int {
 
 // ---- C06 (per-candidate part) -----------------------------------------------------------------
 
-var reTabStop = regexp.MustCompile(`\$\{(\d+)(:|\})|\$(\d+)`)
 
-// snippetStops returns the tab-stop numbers of a snippet in order of appearance, honouring `\$`.
-func snippetStops(s string) []int {
-	var out []int
-	for _, m := range reTabStop.FindAllStringSubmatchIndex(s, -1) {
-		if m[0] > 0 && s[m[0]-1] == '\\' {
-			continue
+// scanSnippet reads a snippet the way a client does: a backslash escapes the next character (so `\\$1` is a
+// backslash followed by a live tab stop), `$n`, `${n}` and `${n:default}` are tab stops. It returns the tab-stop
+// numbers in order of appearance and the text the snippet inserts when every stop keeps its default.
+func scanSnippet(s string) (stops []int, rendered string) {
+	var sb strings.Builder
+	var rec func(i int, closeOn bool) int
+	rec = func(i int, closeOn bool) int {
+		for i < len(s) {
+			c := s[i]
+			switch {
+			case c == '\\' && i+1 < len(s) && (s[i+1] == '$' || s[i+1] == '}' || s[i+1] == '\\'):
+				sb.WriteByte(s[i+1])
+				i += 2
+			case c == '}' && closeOn:
+				return i + 1
+			case c == '$' && i+1 < len(s) && s[i+1] >= '0' && s[i+1] <= '9':
+				j := i + 1
+				for j < len(s) && s[j] >= '0' && s[j] <= '9' {
+					j++
+				}
+				n, _ := strconv.Atoi(s[i+1 : j])
+				stops = append(stops, n)
+				i = j
+			case c == '$' && i+2 < len(s) && s[i+1] == '{' && s[i+2] >= '0' && s[i+2] <= '9':
+				j := i + 2
+				for j < len(s) && s[j] >= '0' && s[j] <= '9' {
+					j++
+				}
+				if j < len(s) && (s[j] == '}' || s[j] == ':') {
+					n, _ := strconv.Atoi(s[i+2 : j])
+					stops = append(stops, n)
+					if s[j] == '}' {
+						i = j + 1
+					} else {
+						i = rec(j+1, true)
+					}
+				} else {
+					sb.WriteByte(c)
+					i++
+				}
+			default:
+				sb.WriteByte(c)
+				i++
+			}
 		}
-		num := ""
-		if m[2] >= 0 {
-			num = s[m[2]:m[3]]
-		} else {
-			num = s[m[6]:m[7]]
-		}
-		n, _ := strconv.Atoi(num)
-		out = append(out, n)
+		return i
 	}
-	return out
+	rec(0, false)
+	return stops, sb.String()
+}
+
+// snippetStops returns the tab-stop numbers of a snippet in order of appearance.
+func snippetStops(s string) []int {
+	st, _ := scanSnippet(s)
+	return st
 }
 
 // snippetProblem: numbers (0 aside) must be distinct and consecutive; ${0} at most once.
-func snippetProblem(s string) string {
+func snippetProblem(s string, label bool) string {
 	stops := snippetStops(s)
 	zero := 0
 	var nz []int
@@ -193,7 +230,10 @@ func snippetProblem(s string) string {
 			return "gap-in-stops"
 		}
 	}
-	// (the run need not start at 1: label candidates number the labels that follow the completed one from 2)
+	// the run starts at 1 (label candidates number the labels that follow the completed one from 2)
+	if len(nz) > 0 && (nz[0] > 2 || nz[0] == 2 && !label) {
+		return "stops-do-not-start-at-1"
+	}
 	return ""
 }
 
@@ -247,7 +287,17 @@ func c06Result(cx *explore.Ctx, q run.Query, r run.Result) {
 		if st := snippetStops(strings.ReplaceAll(te.NewText, "$${", "")); len(st) > 0 {
 			add("newtext:tab-stop-syntax", kind, fmt.Sprintf("candidate %q plain text %q contains tab-stop syntax", cd.Label, te.NewText))
 		}
-		if p := snippetProblem(te.Snippet); p != "" {
+		// a snippet without tab stops has nothing to fill in: it inserts the plain text
+		valueKind := false
+		switch cd.Kind {
+		case lang.StringCandidateKind, lang.NumberCandidateKind, lang.BoolCandidateKind, lang.ListCandidateKind, lang.SetCandidateKind,
+			lang.TupleCandidateKind, lang.MapCandidateKind, lang.ObjectCandidateKind:
+			valueKind = true // (attribute and block candidates add ` = ` / braces in the snippet form only)
+		}
+		if stops, rendered := scanSnippet(te.Snippet); valueKind && te.Snippet != "" && len(stops) == 0 && rendered != te.NewText {
+			add("snippet:inserts-other-text-than-plain", kind, fmt.Sprintf("candidate %q: the snippet %q has no tab stop and inserts %q, the plain text is %q", cd.Label, te.Snippet, rendered, te.NewText))
+		}
+		if p := snippetProblem(te.Snippet, cd.Kind == lang.LabelCandidateKind); p != "" {
 			add("snippet:"+p, kind, fmt.Sprintf("candidate %q snippet %q", cd.Label, te.Snippet))
 		}
 		for _, ae := range cd.AdditionalTextEdits {
